@@ -80,6 +80,8 @@ def couplings_changed(params, key):
             out[k] = float(params[k] * r.uniform(0.6, 1.5))
         elif k.endswith("i"):
             out[k] = float(params[k] + r.uniform(-1.0, 1.0))
+        elif __import__("re").search(r"_g_\d+$", k):  # channel couplings of a Flatte line shape (line-shape parameters kept in a list)
+            out[k] = float(params[k] * r.uniform(1.3, 2.0))
     return out
 
 
@@ -136,6 +138,26 @@ def run(ctx):
         try:
             card = cards.CardGen(rng, tag, nbody=nb, n_chains=(2, 3), final_j2=(0, 1, 1, 2) if nb == 3 else (0, 0, 1, 2),
                                  res_per_slot=(2, 2) if i % 5 == 2 else ((1, 2) if nb == 3 or i % 2 == 0 else (1, 1)), models=MODELS5, decay_opts_prob=0.2).make()
+            special = ""
+            if nb == 3 and i % 6 == 4:
+                # two identical spin-0 final particles (identical_particles declared): every strategy must keep the symmetrisation
+                from ..gen.cards import FINAL_MASSES
+                p_, m_ = int(rng.choice([-1, 1])), float(rng.choice(FINAL_MASSES[:4]))
+                card = cards.CardGen(rng, tag, nbody=3, n_chains=(2, 3), fixed_finals=[(0, p_, m_), (0, p_, m_), (int(rng.choice([0, 1, 2])), int(rng.choice([-1, 1])), float(rng.choice(FINAL_MASSES[:4])))],
+                                     res_per_slot=(1, 1), models=MODELS5, decay_opts_prob=0.0).make()
+                fn_ = [f["name"] for f in card["meta"]["finals"]]
+                card["config"]["data"]["identical_particles"] = [[fn_[0], fn_[1]]]
+                special = " [identical_particles]"
+            elif nb == 3 and i % 6 == 5:
+                # one resonance with a Flatte line shape whose channel couplings are free parameters (kept in a list by the model)
+                r0_ = card["meta"]["resonances"][0]
+                fm_ = {j_: card["meta"]["finals"][j_]["mass"] for j_ in r0_["slot"]}
+                pc_ = card["config"]["particle"][r0_["name"]]
+                pc_["model"] = "Flatte"
+                pc_["mass_list"] = [[fm_[r0_["slot"][0]], fm_[r0_["slot"][1]]], [float(rng.uniform(0.2, 0.6)), float(rng.uniform(0.2, 0.6))]]
+                pc_.pop("width", None)
+                special = " [free Flatte couplings]"
+            ctx.covered("card_special", special.strip() or "none")
             # every fourth card: CP-violating chain couplings (decay_chain: {$all: {is_cp: True}}) and events of both charges
             cp_card = i % 4 == 1
             if cp_card:
@@ -200,6 +222,14 @@ def run(ctx):
                     g2 = np.asarray(amp(data))
                     amp.set_params(p1)
                     g3 = np.asarray(amp(data))
+                    # the same complex couplings stored in Cartesian instead of polar form
+                    g4 = None
+                    if not cp_card:  # (the charge-dependent value of CP-violating couplings does not survive the switch in any model: C16's finding)
+                        try:
+                            amp.vm.rp2xy_all()
+                            g4 = np.asarray(amp(data))
+                        finally:
+                            amp.vm.xy2rp_all()
                     g_sub = []
                     if len(amp.decay_group.chains) == n_ch:
                         for sub_ in subsets:
@@ -224,7 +254,13 @@ def run(ctx):
             ctx.check(monitor, worst <= 1.0, lambda: {"card": cards.short(card), "config": card["config"], "data_opts": opts, "param_key": [ctx.seed, i],
                                                       "phase": worst_label, "worst_ratio": worst, "f_default": f1[:3], "f_strategy": g1[:3],
                                                       "charges": None if not cp_card else extra["charge_conjugation"][:6]},
-                      mechanism=monitor + kf_cp)
+                      mechanism=monitor + (kf_cp if cp_card else special))
+            if g4 is not None and worst <= 1.0:  # (only where the strategy agrees before the switch)
+                d4 = np.abs(g4 - f1) / tol1
+                w4 = float(np.max(d4[good])) if np.any(good) else 0.0
+                ctx.check(monitor, w4 <= 1.0, lambda: {"card": cards.short(card), "config": card["config"], "data_opts": opts, "param_key": [ctx.seed, i],
+                                                       "phase": "couplings switched from polar to Cartesian form (rp2xy_all), same complex values", "worst_ratio": w4, "f_default": f1[:3], "f_strategy": g4[:3]},
+                          mechanism=monitor + " [after a polar -> Cartesian switch of the couplings]")
             ctx.case(cards.card_digest_key(card) + (name,), nontrivial=spin)
 
         for name, opts in STRATEGIES.items():
